@@ -536,8 +536,9 @@ func scopesC10(thorough bool) []scope {
 		return []scope{
 			{Name: "N=1 len<=3 full alphabet, <=2 preemptions", Targets: 1, Streams: streams(alphabet(1, true), 3), Bound: 2},
 			{Name: "N=2 len<=2 full alphabet, <=2 preemptions", Targets: 2, Streams: streams(alphabet(2, true), 2), Bound: 2},
-			{Name: "N=2 len<=3 reduced alphabet, <=1 preemption", Targets: 2, Streams: streams(alphabet(2, false), 3), Bound: 1},
 			{Name: "N=3 len<=2 reduced alphabet, <=1 preemption", Targets: 3, Streams: streams(alphabet(3, false), 2), Bound: 1},
+			// largest scope last: a deadline cuts only this one short
+			{Name: "N=2 len<=3 reduced alphabet, <=1 preemption", Targets: 2, Streams: streams(alphabet(2, false), 3), Bound: 1},
 		}
 	}
 	return []scope{
